@@ -15,3 +15,4 @@ import DeepModel.Props.C07
 #print axioms C07.c07_cycles_terminate
 #print axioms C07.c07_dangling_only_locals
 #print axioms C07.c07_closed_of_no_locals_ref
+#print axioms C07.c07_deferred_identity
